@@ -24,6 +24,7 @@ import Spade.Abs
 import Spade.Spec
 import Spade.Proofs.InsertInv
 import Spade.Proofs.RemoveInv
+import Spade.Proofs.HandleArith
 namespace Spade
 open AState
 
@@ -166,4 +167,52 @@ theorem C05_model_remove_vertices (s t : St) (v : Nat) (hv : v < s.nV) (hsz : s.
   rw [hsz] at this
   exact this
 
+
+/-! ### Code level (T0): edge-handle arithmetic of `handle_impls.rs` and the half-edge address of `dcel.rs`
+
+A fixed directed edge handle is an index; where its half edge lives is `halfEdgeSlot`.  The theorems
+say that handles never alias, that `rev` is the other slot of the same entry, and that the
+conversions between directed and undirected handles are the inverse pair the documentation promises
+— for every index (machine overflow of `index << 1` is outside the model: indices are `Nat`). -/
+section CodeHandles
+open Spade.Generated
+
+/-- "Calling `rev` twice will always return the original" and `rev` never returns the handle itself -/
+theorem C05_code_rev_involutive (e : Nat) : hRev (hRev e) = e ∧ hRev e ≠ e := by
+  simp only [hRev_eq]; constructor <;> (repeat' split) <;> omega
+
+/-- two different handles never address the same half-edge slot; the slot index is 0 or 1 -/
+theorem C05_code_slot_injective (e e' : Nat) (h : halfEdgeSlot e = halfEdgeSlot e') : e = e' := by
+  simp only [halfEdgeSlot, hAsUndirected_eq, hNormalizeIndex_eq, Prod.mk.injEq] at h; omega
+
+theorem C05_code_slot_lt (e : Nat) : (halfEdgeSlot e).2 < 2 := by
+  simp only [halfEdgeSlot, hNormalizeIndex_eq]; omega
+
+/-- every slot of every entry is the address of a handle (no dead storage): `2u+k` -/
+theorem C05_code_slot_surjective (u k : Nat) (hk : k < 2) : halfEdgeSlot (2 * u + k) = (u, k) := by
+  simp only [halfEdgeSlot, hAsUndirected_eq, hNormalizeIndex_eq, Prod.mk.injEq]; omega
+
+/-- `rev` is the other slot of the same entry -/
+theorem C05_code_rev_slot (e : Nat) :
+    (halfEdgeSlot (hRev e)).1 = (halfEdgeSlot e).1 ∧ (halfEdgeSlot (hRev e)).2 = 1 - (halfEdgeSlot e).2 := by
+  simp only [halfEdgeSlot, hAsUndirected_eq, hNormalizeIndex_eq, hRev_eq]; split <;> omega
+
+/-- undirected → directed → undirected is the identity; `normalized` is normalized, `not_normalized` is not -/
+theorem C05_code_undirected_roundtrip (u : Nat) :
+    hAsUndirected (hAsDirected u) = u ∧ hIsNormalized (hNormalized u) = true ∧
+    hIsNormalized (hNotNormalized u) = false ∧ hAsUndirected (hNotNormalized u) = u := by
+  simp only [hAsDirected, hNormalized, hNotNormalized, hAsUndirected_eq, hNewNormalized_eq, hIsNormalized_eq,
+    hRev_eq, decide_eq_true_eq, decide_eq_false_iff_not]
+  refine ⟨by omega, by omega, ?_, ?_⟩ <;> split <;> omega
+
+/-- `directed_edges()` of `u` are exactly the handles whose `as_undirected()` is `u` -/
+theorem C05_code_directed_edges_exact (u e : Nat) :
+    hAsUndirected e = u ↔ (e = hAsDirected u ∨ e = hRev (hAsDirected u)) := by
+  simp only [hAsDirected, hAsUndirected_eq, hNewNormalized_eq, hRev_eq]; split <;> omega
+
+/-- the model's reversal (`St.WF` demands `rev e = e ^^^ 1`) is the code's `rev` -/
+theorem C05_code_rev_is_model (e : Nat) : hRev e = e ^^^ 1 := rfl
+
+example : hRev 6 = 7 ∧ hRev 7 = 6 ∧ halfEdgeSlot 7 = (3, 1) ∧ hNotNormalized 3 = 7 := by decide
+end CodeHandles
 end Spade
